@@ -68,8 +68,9 @@ func (w *World) populate(minSegs int) {
 				drops[k], _ = genDrops(c, h.Canon.Count)
 			}
 		}
-		h := w.mergeOnce(ins, drops, MergeParts{})
-		w.Add(h)
+		if h := w.mergeOnce(ins, drops, w.PopParts); h != nil {
+			w.Add(h)
+		}
 	}
 	r.NonTrivial = false
 }
@@ -239,6 +240,7 @@ func dictionaryProtocol(r *RunCtx) {
 	c := r.ch
 	w := newWorld(r, c.Choose(4, "cfg.syn") == 0, false)
 	defer w.CloseAll()
+	w.PopParts = MergeParts{Postings: true}
 	w.populate(1)
 	// The iterations run on COLD twin instances (second Open of the file, or a
 	// rebuild of the batch): the lazily filled per-field dictionary cache of the
@@ -445,6 +447,7 @@ func postingsProtocol(r *RunCtx) {
 	c := r.ch
 	w := newWorld(r, false, false)
 	defer w.CloseAll()
+	w.PopParts = MergeParts{Postings: true}
 	w.populate(1)
 	// cold twin instances, as in the dictionary protocol
 	for _, h := range w.Segs {
@@ -714,6 +717,7 @@ func docValuesProtocol(r *RunCtx) {
 	c := r.ch
 	w := newWorld(r, c.Choose(5, "cfg.syn") == 0, false)
 	defer w.CloseAll()
+	w.PopParts = MergeParts{DocValues: true}
 	w.populate(1)
 	// Transposed: doc values of a built segment are its postings, transposed
 	for _, h := range w.Segs {
